@@ -460,3 +460,37 @@ contract(
     ensures={"same_values": "payload(result).shape == (n, p) and forall(range(n), range(p), lambda i, j: payload(result)[i, j] == X[i, j])"},
     props=["C14"],
 )
+
+# ------------------------------------------------------------------------------------------------ tuned thresholds (C15: scale None)
+_MWSC = ("ite(self.bandwidth <= t and t <= n - self.bandwidth, "
+         "AGG3(self._change_score.ghost_tok, t - self.bandwidth, t, t + self.bandwidth), 0)")
+_MW_TUNE_MODS = {"self._change_score._X": "=X", "self._change_score._is_fitted": "=True", "self._change_score.ghost_tok": "int",
+                 "self._change_score.ghost_n": "=n", "self._change_score.ghost_p": "=p", "self._change_score.ghost_q": "int"}
+contract(
+    target=f"{MW}::MovingWindow._tune_threshold",
+    params={"self": "obj:MovingWindow", "self.bandwidth": "int", "self.level": "real", **_MCS, "X": "real[n,p]"},
+    requires=["self.bandwidth >= 1", "self._change_score.min_size >= 1", "self._change_score.min_size <= self.bandwidth", "n >= 2 * self.bandwidth",
+              "0 <= self.level", "self.level <= 1"],
+    modifies=_MW_TUNE_MODS,
+    returns="real",
+    ensures={
+        # the (1 - level) quantile of exactly the moving-window scores (fitted bandwidth) of the training data
+        "quantile_of_training_scores": "result == MWQ(self._change_score.ghost_tok, self.bandwidth, n, 1 - self.level)",
+        "fitted_on_X": "self._change_score._is_fitted == True and self._change_score.ghost_n == n",
+    },
+    ghost=[("after:tuned_threshold = *",
+            "assert using(AX_mwq(scores, self._change_score.ghost_tok, self.bandwidth, n, 1 - self.level), "
+            "tuned_threshold == MWQ(self._change_score.ghost_tok, self.bandwidth, n, 1 - self.level))")],
+    props=["C15"],
+)
+contract(
+    target=f"{MW}::MovingWindow._fit", variant="tuned",
+    params={"self": "obj:MovingWindow", "self.threshold_scale": "none", "self.bandwidth": "int", "self.level": "real", **_MCS, "X": "real[n,p]", "y": "none"},
+    requires=["self.bandwidth >= 1", "self._change_score.min_size >= 1", "self._change_score.min_size <= self.bandwidth",
+              "0 <= self.level", "self.level <= 1"],
+    raises={"ValueError": "HASNAN(X) or n < 2 * self.bandwidth"},
+    modifies=_MW_TUNE_MODS,
+    ensures={"threshold": "self.threshold_ == MWQ(self._change_score.ghost_tok, self.bandwidth, n, 1 - self.level)",
+             "fitted_on_X": "self._change_score._is_fitted == True and self._change_score.ghost_n == n"},
+    props=["C15", "C14"],
+)
